@@ -807,6 +807,13 @@ class Evaluator:
             while v[0] in ("ref", "deref", "inner"):
                 v = v[1]
             ln = None
+            # an iterator adaptor that keeps the length (`(a..b).map(f)`), a range of integers (`b.saturating_sub(a)`)
+            while v[0] == "call" and v[1] in ("Iterator::map", "Iterator::cloned", "Iterator::copied", "into_iter") and v[2]:
+                v = v[2][0]
+                while v[0] in ("ref", "deref", "inner"):
+                    v = v[1]
+            if v[0] == "agg" and v[1].endswith("ops::Range::Range") and len(v[2]) == 2:
+                ln = ("call", "saturating_sub", (v[2][1], v[2][0]))
             if v[0] == "call" and v[1] == "index" and len(v[2]) == 2:
                 rg = v[2][1]
                 while rg[0] == "ref":
